@@ -96,7 +96,7 @@ def api_position(kind, cp, conv, pos):
     return "ok"
 
 
-CLASSES = [0x78, 0xE9, 0xB1, 0xFF, 0x100, 0x3B1, 0x4E2D, 0x7FFF, 0x8000, 0xFFFD, 0x10000, 0x1F600, 0x10FFFF]
+CLASSES = [0x78, 0xE9, 0xB1, 0xFF, 0x100, 0x3B1, 0x2028, 0x2029, 0x4E2D, 0x7FFF, 0x8000, 0xFFFD, 0x10000, 0x1F600, 0x10FFFF]
 
 
 def witnesses(tier="quick", seed=0):
